@@ -47,7 +47,10 @@ class Interpreter:
             environment_ = environment
             while environment_ and environment_.parent:
                 environment_ = environment_.parent
-            if environment_:
+            if environment_ and environment_ is not self.base_environment:
+                # (an environment that was passed in before is already
+                # attached; re-parenting its root, the base environment,
+                # would close the parent chain into a cycle)
                 savedParent = environment_.parent
                 environment_.withParent(self.environment)
             env = environment
